@@ -150,6 +150,8 @@ def ndarray_for(letters, items, fn, provenance="C"):
         v[idx] = fn(tuple(items[l][i] for l, i in zip(letters, idx)))
     if provenance == "Cint":  # integer dtype (legitimate: e.g. FlodymArray.full(dims, 2))
         return v.astype(np.int64)
+    if provenance == "Cu8":  # narrow unsigned integers (counts): sums along a dimension exceed the dtype's range
+        return v.astype(np.uint8)
     if provenance == "C" or not shape:
         return v
     if provenance == "F":
